@@ -315,6 +315,44 @@ UNITS.append(Unit('r.IndexListItem', ('IndexListItem::read', None), contract=ILI
                   note='index list: array of any length, definite or indefinite: the list receives exactly the delivered elements in order; '
                        'no allocation is sized by the unchecked length field of the array head'))
 
+TS_C = '''
+__CPROVER_requires(__CPROVER_w_ok($this, sizeof(*$this)) && g_exc == 0 && RD_FRESH && !g_raised)
+__CPROVER_assigns(__CPROVER_object_whole($this), ''' + RD_GHOSTS + ''')
+__CPROVER_ensures(g_exc == 0 || g_exc == EXC_CdnsDecoderException || g_exc == EXC_CdnsDecoderEnd)
+__CPROVER_ensures(g_raised ==> g_exc != 0)
+__CPROVER_ensures(g_exc == 0 ==> (RD_ARRAY_DONE && rd_cnt1 == 2))
+__CPROVER_ensures((g_exc == 0 && g_Ei == 0) ==> (g_eseen && $this->m_secs == g_elast))
+__CPROVER_ensures((g_exc == 0 && g_Ei == 1) ==> (g_eseen && $this->m_ticks == g_elast))
+'''
+def ts_loops(ast, L, tf):
+    n = dict(tf.locals)
+    for need in ('is_m_secs', 'is_m_ticks', 'indef', 'length', 'i'):
+        if need not in n:
+            raise LowerError('Timestamp::read: local %s not found' % need)
+    return {1: '''
+  __CPROVER_assigns(__CPROVER_object_whole(this), i, is_m_secs, is_m_ticks, ''' + RD_GHOSTS + ''')
+  __CPROVER_loop_invariant(g_exc == 0 && !g_raised && rd_depth == 1 && !rd_topmap && !rd_bad && !rd_done1 && !rd_break_pending)
+  __CPROVER_loop_invariant(i <= 2 && rd_cnt1 == i && (rd_indef1 ? indef : (!indef && i <= length && rd_left1 == length - i)))
+  __CPROVER_loop_invariant((is_m_secs != 0) == (i >= 1) && (is_m_ticks != 0) == (i >= 2))
+  __CPROVER_loop_invariant((g_Ei == 0 && i >= 1) ==> (g_eseen && this->m_secs == g_elast))
+  __CPROVER_loop_invariant((g_Ei == 1 && i >= 2) ==> (g_eseen && this->m_ticks == g_elast))
+'''}
+UNITS.append(Unit('r.Timestamp', ('Timestamp::read', None), contract=TS_C, loops=ts_loops, prelude=P, extern_records=EXT, stubs=DEC_STUBS, inline=[('Timestamp::reset', None)], arrays_uf=False,
+                  setup='  static struct Timestamp obj; struct CdnsDecoder dec;\n  rd_init(); g_raised = 0;\n', args=['&obj', '&dec'], props=['C08', 'C01', 'C17', 'C03', 'C05'], timeout=600,
+                  post='  if (g_exc != 0) { CANARY("decoder exception reachable"); }',
+                  note='timestamp: an array (definite or indefinite) of exactly two unsigned integers, seconds then ticks; fewer or more elements raise a format error'))
+UNITS.append(Unit('r.StringItem', ('StringItem::read', None), contract='''
+__CPROVER_requires(__CPROVER_w_ok($this, sizeof(*$this)) && g_exc == 0 && !g_raised && rd_depth == 1 && !rd_topmap && !rd_bad && !rd_break_pending && !rd_done1 && (rd_indef1 || rd_left1 > 0) && rd_cnt1 < (1UL << 60))
+__CPROVER_assigns(__CPROVER_object_whole($this), ''' + RD_GHOSTS + ''')
+__CPROVER_ensures(g_exc == 0 || g_exc == EXC_CdnsDecoderException || g_exc == EXC_CdnsDecoderEnd)
+__CPROVER_ensures(g_raised ==> g_exc != 0)
+__CPROVER_ensures(g_exc == 0 ==> (rd_cnt1 == @C0 + 1 && !rd_bad))
+__CPROVER_ensures((g_exc == 0 && g_Ei == @C0) ==> (g_eseen && $this->data.id == g_elast))
+''', prelude=P, extern_records=EXT, stubs=DEC_STUBS, inline=[('StringItem::reset', None)], arrays_uf=False, ghost=[('unsigned long', 'C0', 'rd_cnt1')],
+                  setup='  static struct StringItem obj; struct CdnsDecoder dec;\n  g_raised = 0;\n  __CPROVER_assume(rd_depth == 1 && !rd_topmap && !rd_bad && !rd_break_pending && !rd_done1 && (rd_indef1 || rd_left1 > 0) && rd_cnt1 < (1UL << 60));\n', args=['&obj', '&dec'],
+                  props=['C08', 'C01', 'C05'], timeout=300, post='  if (g_exc != 0) { CANARY("decoder exception reachable"); }',
+                  note='string item: exactly one byte string is read and stored'))
+
 RFH_C = '''
 __CPROVER_requires(__CPROVER_w_ok($this, sizeof(*$this)) && g_exc == 0 && H.step == 0 && !H.seq_bad && !H.raised)
 __CPROVER_assigns(__CPROVER_object_whole($this), H, g_lit, g_exc)
